@@ -43,6 +43,10 @@ pub struct Knobs {
     /// once any script failed, build/service scripts never exit by themselves (C10 failure path)
     #[serde(default)]
     pub freeze_on_failure: bool,
+    /// number of executor worker threads modelled (0 = unlimited). It only matters when a task
+    /// BLOCKS its worker (a nested `block_on`): with every worker blocked no other task runs
+    #[serde(default)]
+    pub workers: u32,
     /// record full trace (false: only process, log, fs, signal and verdict events)
     #[serde(default)]
     pub full_trace: bool,
